@@ -39,6 +39,8 @@ impl<'a> PrettyPrinter<'a> {
     }
 
     pub fn convert_pattern(&'a self, ctx: Context, pattern: Pattern<'a>) -> ArenaDoc<'a> {
+        #[cfg(typstyle_verif)]
+        crate::verif::visit("pattern", pattern.to_untyped().span());
         if let Some(res) = self.check_disabled(pattern.to_untyped()) {
             return res;
         }
